@@ -159,6 +159,10 @@ def stream_behind_preamble(fs, path, data, encoding, kind):
     return stream
 
 
+#: what the simulated caller writes over every row it has received and copied
+SCRIBBLE = ["<overwritten by the caller>"]
+
+
 class ReturnedRowChanged(Exception):
     """A row object handed out by a reader was modified by the reader afterwards."""
 
@@ -174,9 +178,12 @@ def collect_rows(iterable):
     for row in iterable:
         kept.append(row)
         copies.append(list(row))
+        if isinstance(row, list):
+            row[:] = SCRIBBLE  # a returned row belongs to the caller, who may do with it what they like
     for index, (row, copy_) in enumerate(zip(kept, copies)):
-        if list(row) != copy_:
-            raise ReturnedRowChanged("row %d was %r when returned and is %r now" % (index, copy_, list(row)))
+        if list(row) != (SCRIBBLE if isinstance(row, list) else copy_):
+            raise ReturnedRowChanged("row %d was %r when returned, then overwritten by the caller, and is %r now" % (
+                index, copy_, list(row)))
     return copies
 
 
@@ -252,6 +259,8 @@ class ReadRun(object):
         else:
             self.items.append(["row", list(item)])
             self.held_rows.append((item, list(item), len(self.items) - 1))
+            if isinstance(item, list):
+                item[:] = SCRIBBLE  # the caller is done with the row and reuses the list for something else
         return True
 
     def close(self):
@@ -277,7 +286,7 @@ class ReadRun(object):
         """First returned row whose content is no longer what it was when it was handed out (a row belongs to
         the caller from then on), or None."""
         for row, content, index in self.held_rows:
-            if list(row) != content:
+            if list(row) != (SCRIBBLE if isinstance(row, list) else content):
                 return index, content, list(row)
         return None
 
